@@ -96,18 +96,25 @@ def preorder_index(root, node):
 
 
 def lock_scopes(fn):
-    """compound statements that declare a MutexLockGuard on mutex_ as their first statement"""
+    """the regions guarded by a `MutexLockGuard` on mutex_: from the declaration of the guard to the end of the compound
+    statement that declares it.  A guard that opens its block gives the block itself; a guard declared further down gives
+    a synthetic CompoundStmt holding the guard and the statements after it (`anchor` = the guard's DeclStmt, a real node)"""
     res = []
     for n in walk(body_of(fn)):
         if n.get("kind") != "CompoundStmt" or not kids(n):
             continue
-        first = kids(n)[0]
-        if first.get("kind") == "DeclStmt":
-            for v in kids(first):
-                if v.get("kind") == "VarDecl" and "MutexLockGuard" in v.get("type", {}).get("qualType", "") \
-                        and any(x.get("kind") == "MemberExpr" and x.get("name") == "mutex_" for x in walk(v)):
-                    res.append(n)
+        ks = kids(n)
+        for idx, st in enumerate(ks):
+            if st.get("kind") != "DeclStmt":
+                continue
+            if any(v.get("kind") == "VarDecl" and "MutexLockGuard" in v.get("type", {}).get("qualType", "")
+                   and any(x.get("kind") == "MemberExpr" and x.get("name") == "mutex_" for x in walk(v)) for v in kids(st)):
+                res.append(n if idx == 0 else {"kind": "CompoundStmt", "id": "lockscope-%s" % st.get("id"), "inner": ks[idx:], "anchor": st})
     return res
+
+
+def scope_anchor(scope):
+    return scope.get("anchor", scope)
 
 
 def is_assert(n):
@@ -354,7 +361,7 @@ def generate():
         raise ExtractError("RESPONSE branch: no single `if (out.response)` without else at branch level")
     g = kids(guards[0])[1]
     site(if_cond(guards[0]), "respCompletes")
-    if scope is not None and preorder_index(rc, guards[0]) < preorder_index(rc, scope):
+    if scope is not None and preorder_index(rc, guards[0]) < preorder_index(rc, scope_anchor(scope)):
         raise ExtractError("RESPONSE branch: completion precedes the look-up")
     runs = [c for c in member_calls(rc, "Run")]
     for r in runs:
